@@ -2795,6 +2795,130 @@ fn round_killstorm(seed: u64, hb: &Heartbeat, tot: &Mutex<Tot>, prop: &str) {
 }
 
 // ---------------------------------------------------------------------------------------------
+// blockpair: two timed blocking calls from two threads at once, to unrelated actors. The first is legitimately slow (its
+// callee parks; generous timeout). The second must be served on its own terms while the first is still pending: an ended
+// target fails at once (C03), a live idle target answers, a busy target times out at ITS deadline (C10) - the blocking
+// variants obey the same rules whatever else is going on in the process (C17).
+// ---------------------------------------------------------------------------------------------
+fn round_blockpair(seed: u64, hb: &Heartbeat, tot: &Mutex<Tot>, prop: &str) {
+    use ab::*;
+    let mut r = Rng::new(seed);
+    let rt = tokio::runtime::Builder::new_multi_thread().worker_threads(2).enable_time().build().unwrap();
+    let bucket0 = hb.now_bucket();
+    let handled = Arc::new(AtomicU64::new(0));
+    let (slow, sjh, dead, live, ljh) = rt.block_on(async {
+        let (s, sjh) = rsactor::spawn::<A>(Args { handled: handled.clone(), start_ms: 0, ticks: false });
+        let (d, djh) = rsactor::spawn::<A>(Args { handled: Arc::new(AtomicU64::new(0)), start_ms: 0, ticks: false });
+        let _ = d.stop().await;
+        let _ = djh.await;
+        let (l, ljh) = rsactor::spawn::<A>(Args { handled: Arc::new(AtomicU64::new(0)), start_ms: 0, ticks: false });
+        (s, sjh, d, l, ljh)
+    });
+    let sem = Arc::new(tokio::sync::Semaphore::new(0));
+    let first_tell = r.chance(20);
+    // first call: slow by design
+    let t1 = {
+        let (slow, sem) = (slow.clone(), sem.clone());
+        std::thread::spawn(move || slow.blocking_ask(Park(sem), Some(Duration::from_secs(60))))
+    };
+    let t0 = Instant::now();
+    while handled.load(Ordering::SeqCst) == 0 && t0.elapsed() < Duration::from_secs(5) {
+        std::thread::sleep(Duration::from_millis(1));
+    }
+    if first_tell {
+        // a second slow one: a timed blocking tell parked on nothing - it is accepted (capacity 32) at once; harmless
+        let _ = slow.blocking_tell(Work(0, 0), Some(Duration::from_secs(60)));
+    }
+    // second call(s)
+    let variant = r.below(4);
+    let (tx, rx) = std::sync::mpsc::channel();
+    {
+        let (dead, live, slow, tx) = (dead.clone(), live.clone(), slow.clone(), tx.clone());
+        std::thread::spawn(move || {
+            let t = Instant::now();
+            let out: (u64, String, bool) = match variant {
+                0 => {
+                    let r = dead.blocking_ask(Work(1, 0), Some(Duration::from_millis(500)));
+                    (0, format!("{r:?}"), matches!(r, Err(rsactor::Error::Send { .. })))
+                }
+                1 => {
+                    let r = dead.blocking_tell(Work(1, 0), Some(Duration::from_millis(500)));
+                    (1, format!("{r:?}"), matches!(r, Err(rsactor::Error::Send { .. })))
+                }
+                2 => {
+                    let r = live.blocking_ask(Work(7, 0), Some(Duration::from_millis(2000)));
+                    (2, format!("{r:?}"), matches!(r, Ok(7)))
+                }
+                _ => {
+                    // the parked actor cannot answer: Timeout at this call's own deadline
+                    let r = slow.blocking_ask(Work(9, 0), Some(Duration::from_millis(100)));
+                    (3, format!("{r:?}"), matches!(r, Err(rsactor::Error::Timeout { .. })))
+                }
+            };
+            let _ = tx.send((out, t.elapsed()));
+        });
+    }
+    let second = rx.recv_timeout(Duration::from_secs(6));
+    let first_still_pending = !t1.is_finished();
+    sem.add_permits(8);
+    let first = t1.join();
+    let stalled = hb.max_late_since(bucket0) > STALL_US;
+    let _ = slow.kill();
+    let _ = live.kill();
+    let _ = rt.block_on(async {
+        let _ = tokio::time::timeout(Duration::from_secs(5), sjh).await;
+        tokio::time::timeout(Duration::from_secs(5), ljh).await
+    });
+    rt.shutdown_timeout(Duration::from_secs(2));
+    let what = ["blocking_ask(Some(500 ms)) to an actor that has ended", "blocking_tell(Some(500 ms)) to an actor that has ended", "blocking_ask(Some(2 s)) to a live idle actor", "blocking_ask(Some(100 ms)) to the parked actor"][variant as usize];
+    let mut v: Vec<(&str, &str, &str, String)> = vec![]; // (C03 clause, C10 clause, C17 clause, msg)
+    match second {
+        Err(_) => {
+            if !stalled {
+                v.push(("C03.complete", "C10.late", "C17.deadline", format!("[blockpair] a {what} had not returned after 6 s while another thread's timed blocking_ask (60 s timeout) to an unrelated, parked actor was pending (first call still pending: {first_still_pending})")));
+            }
+        }
+        Ok(((_, shown, right), el)) => {
+            if !right {
+                v.push(("C03.integrity", "C10.timeout_iff", "C17.same_rules", format!("[blockpair] a {what}, made while another thread's timed blocking_ask to an unrelated parked actor was pending, returned {shown}")));
+            }
+            let limit = Duration::from_millis([400u64, 400, 1500, 100 + 900][variant as usize]);
+            if el > limit && !stalled {
+                v.push(("C03.complete", "C10.late", "C17.deadline", format!("[blockpair] a {what} took {el:?} while another thread's timed blocking call to an unrelated parked actor was pending")));
+            }
+        }
+    }
+    match first {
+        Ok(Ok(5)) => {}
+        other => v.push(("C03.integrity", "C03.integrity", "C17.same_rules", format!("[blockpair] the slow first call (blocking_ask with a 60 s timeout to an actor that parks, released after the second call was over) returned {other:?} instead of Ok(5)"))),
+    }
+    let mut t = tot.lock().unwrap();
+    t.rounds += 1;
+    t.hashes.insert(mix(variant, first_tell as u64));
+    for p in ["C03", "C10", "C17"] {
+        *t.nontrivial.entry(p.into()).or_default() += 1;
+    }
+    *t.obl.entry("C03.complete").or_default() += 2;
+    *t.obl.entry("C17.deadline").or_default() += 2;
+    *t.obl.entry("C10.late").or_default() += 1;
+    if stalled && !v.is_empty() {
+        t.inconclusive.push(format!("blockpair round {seed}: machine stalled"));
+        return;
+    }
+    for (c3, c10, c17, m) in v {
+        let c = match prop {
+            "C03" => c3,
+            "C10" => c10,
+            "C17" | "all" => c17,
+            _ => continue,
+        };
+        if c.starts_with(prop) || prop == "all" {
+            t.viol.push((c.into(), m, seed, "blockpair".into()));
+        }
+    }
+}
+
+// ---------------------------------------------------------------------------------------------
 // lastslot: several senders on different worker threads go for the last free slot(s) of a mailbox at the same instant with
 // tell_with_timeout, while the actor is parked in a handler for longer than the timeout. Exactly as many as there are free
 // slots succeed at once; the others WAIT (C09) and come back with Timeout at their deadline - not earlier, not with another
@@ -3197,6 +3321,16 @@ mod ab {
         async fn handle(&mut self, mut l: Lease, _: &ActorRef<Self>) -> u8 {
             l.0 = None;
             1
+        }
+    }
+    /// parks the handler until a permit is released from outside
+    pub struct Park(pub Arc<tokio::sync::Semaphore>);
+    impl Message<Park> for A {
+        type Reply = u64;
+        async fn handle(&mut self, p: Park, _: &ActorRef<Self>) -> u64 {
+            self.handled.fetch_add(1, Ordering::SeqCst);
+            let _ = p.0.acquire().await;
+            5
         }
     }
     impl Message<Work> for A {
@@ -4005,6 +4139,16 @@ pub fn cmd_mt(a: &Args) -> i32 {
                     }
                 }
             }
+            "blockpair" => {
+                let mut n = 0u64;
+                while tp.elapsed() < per_profile {
+                    n += 1;
+                    round_blockpair(mix(base, ((pi as u64) << 56) ^ n), &hb, &tot, &prop);
+                    if tot.lock().unwrap().viol.len() > 3 {
+                        break;
+                    }
+                }
+            }
             "killstorm" => {
                 let mut n = 0u64;
                 while tp.elapsed() < per_profile {
@@ -4121,7 +4265,7 @@ pub fn cmd_mt(a: &Args) -> i32 {
     #[cfg(feature = "f_testutils")]
     {
         let d = rsactor::dead_letter_count() - dl0;
-        if !tainted.load(Ordering::Relaxed) && profiles.iter().all(|p| p != "spawnstorm" && p != "tightrace" && p != "starve" && p != "mutualask" && p != "abort" && p != "reentrant" && p != "dropspin" && p != "metricsrace" && p != "undriven" && p != "dlrace" && p != "dropsend" && p != "lastslot" && p != "hookblocking" && p != "bigmsg" && p != "nest" && p != "killstorm") {
+        if !tainted.load(Ordering::Relaxed) && profiles.iter().all(|p| p != "spawnstorm" && p != "tightrace" && p != "starve" && p != "mutualask" && p != "abort" && p != "reentrant" && p != "dropspin" && p != "metricsrace" && p != "undriven" && p != "dlrace" && p != "dropsend" && p != "lastslot" && p != "hookblocking" && p != "bigmsg" && p != "nest" && p != "killstorm" && p != "blockpair") {
             *t.obl.entry("C13.counter").or_default() += 1;
             t.extra.insert("dead_letter_count_delta".into(), d);
             let fl = t.failures;
